@@ -29,3 +29,70 @@ pub fn labels_for(sess: &Session, obs: &mut crate::engine::Obs) {
 pub fn dsuite(sess: &Session) -> &'static dyn DynSuite {
     suite::get(sess.suite)
 }
+
+/// The standard script used to decide whether two contexts "share key material": the sender
+/// seals three messages and both sides export two secrets.
+pub struct Probe {
+    pub cts: Vec<(Vec<u8>, Vec<u8>, Vec<u8>)>, // (ct, aad, pt)
+    pub exports: Vec<(Vec<u8>, usize, Vec<u8>)>, // (ctx, len, value)
+}
+
+pub fn probe_sender(snd: &mut dyn DynSender, sealing: bool) -> Result<Probe, Verdict> {
+    let mut cts = Vec::new();
+    if sealing {
+        for (pt, aad) in [(&b"probe message zero"[..], &b"aad-0"[..]), (&b""[..], &b""[..]), (&b"third probe message, a little longer than a block....."[..], &b"x"[..])] {
+            let ct = snd.seal(pt, aad).map_err(|e| Verdict::skip(format!("construction_failed(seal:{:?})", e)))?;
+            cts.push((ct, aad.to_vec(), pt.to_vec()));
+        }
+    }
+    let mut exports = Vec::new();
+    for (ctx, len) in [(&b""[..], 32usize), (&b"exporter context"[..], 16usize), (&b"k"[..], 64usize)] {
+        let v = snd.export(ctx, len).map_err(|e| Verdict::skip(format!("construction_failed(export:{:?})", e)))?;
+        exports.push((ctx.to_vec(), len, v));
+    }
+    Ok(Probe { cts, exports })
+}
+
+/// Positive control: the receiver opens all probe ciphertexts in order and exports the same values
+pub fn probe_agrees(rcv: &mut dyn DynReceiver, p: &Probe) -> Result<(), String> {
+    for (i, (ct, aad, pt)) in p.cts.iter().enumerate() {
+        match rcv.open(ct, aad) {
+            Ok(got) if &got == pt => {}
+            other => return Err(format!("honest receiver did not open probe message #{}: {:?}", i, other.map(|v| v.len()))),
+        }
+    }
+    for (ctx, len, v) in &p.exports {
+        match rcv.export(ctx, *len) {
+            Ok(got) if &got == v => {}
+            _ => return Err(format!("honest receiver's export (L={}) differs from the sender's", len)),
+        }
+    }
+    Ok(())
+}
+
+/// The two contexts must share no key material: the receiver opens none of the ciphertexts (each
+/// tried at the receiver's current position, which a failure must not move) and every export
+/// differs. Returns a description of the first thing that is shared.
+pub fn probe_disjoint(rcv: &mut dyn DynReceiver, p: &Probe, rcv_sealing: bool) -> Result<(), String> {
+    if rcv_sealing {
+        for (i, (ct, aad, _)) in p.cts.iter().enumerate() {
+            if let Ok(pt) = rcv.open(ct, aad) {
+                return Err(format!("the receiver opened ciphertext #{} of the sender ({} plaintext bytes)", i, pt.len()));
+            }
+            // also at the matching position, in case an earlier acceptance is what moves it
+            rcv.set_seq(i as u64);
+            if let Ok(pt) = rcv.open(ct, aad) {
+                return Err(format!("the receiver opened ciphertext #{} of the sender at position {} ({} plaintext bytes)", i, i, pt.len()));
+            }
+            rcv.set_seq(0);
+        }
+    }
+    for (ctx, len, v) in &p.exports {
+        if let Ok(got) = rcv.export(ctx, *len) {
+            if &got == v {
+                return Err(format!("export(ctx {:?}, L={}) is identical on both sides", String::from_utf8_lossy(ctx), len));
+            }
+        }
+    }
+    Ok(())
+}
